@@ -264,7 +264,13 @@ static void ck_free (void *ptr, void *ud) {
     oprintf ("X free of block %u of context %u through the allocator of context %d", h->id, h->cx, (int) (c - cxs));
   } else {
     ev ((int) (c - cxs), "F %u", h->id); /* a second free shows the same id: the monitor rejects it */
-    if (!h->freed) retire (h);
+    if (!h->freed)
+      retire (h);
+    else {
+      /* double free: recorded and written out at once; the block is NOT handed to the real free (no block ever is) */
+      oprintf ("X double free of block %u (%lu bytes)", h->id, (unsigned long) h->size);
+      oflush ();
+    }
   }
 }
 
@@ -586,6 +592,13 @@ static int ch_exec (struct cx *c, const char *cmd) {
   return 0;
 }
 
+static void on_limit (int sig) {
+  (void) sig;
+  oputs ("X HANG time limit reached inside the step announced last");
+  oflush ();
+  _exit (124);
+}
+
 int main (void) {
   static char line[1 << 20];
   static char altstack[1 << 16];
@@ -606,6 +619,11 @@ int main (void) {
   sigaction (SIGABRT, &sa, NULL);
   sigaction (SIGILL, &sa, NULL);
   sigaction (SIGFPE, &sa, NULL);
+  if (getenv ("C17_LIMIT") != NULL && atoi (getenv ("C17_LIMIT")) > 0) {
+    /* own time limit: a library call that does not return ends the run with the whole trace written so far */
+    signal (SIGALRM, on_limit);
+    alarm ((unsigned) atoi (getenv ("C17_LIMIT")));
+  }
   for (int i = 0; i < MAXCX; i++) {
     struct cx *c = &cxs[i];
     c->alloc = (struct MIR_alloc){ck_malloc, ck_calloc, ck_realloc, ck_free, c};
@@ -631,6 +649,7 @@ int main (void) {
     }
     snprintf (head, sizeof (head), "%.40s", line + 2);
     oprintf ("S %d %d %s", step++, c, head);
+    oflush (); /* the step is on record before the library is entered (a killed child keeps it) */
     cur_cx = c;
     armed = 1;
     if (strncmp (line + 2, "take ", 5) == 0) { /* copy the bytes another context wrote */
